@@ -49,11 +49,13 @@ func CreateDatabases(eng *mk.Engine) error {
 var Ages = []struct {
 	Key uint32
 	LSN uint64
-}{{65530, 65530}, {1<<24 - 6, 1<<32 - 4}, {1<<31 - 6, 1 << 40}, {1<<32 - 200000, 1 << 62}}
+}{{65530, 65530}, {1<<24 - 6, 1<<32 - 4}, {1<<31 - 6, 1 << 40}, {1<<32 - 200000, 1 << 62},
+	// (the same boundaries from further away: they are crossed in the middle of a history, not by its first CREATE TABLE)
+	{65536 - 40, 65536 - 25}, {65536 - 150, 1<<32 - 90}, {1<<24 - 60, 1<<16 - 70}, {1<<31 - 90, 1<<32 - 30}}
 
-// DrawAge draws 0 (a new database, five times in eight) or the index+1 of an age.
+// DrawAge draws 0 (a new database, seven times in seventeen) or the index+1 of an age.
 func DrawAge(rt *rapid.T) int {
-	return rapid.SampledFrom([]int{0, 0, 0, 0, 0, 1, 2, 3, 3, 4}).Draw(rt, "age")
+	return rapid.SampledFrom([]int{0, 0, 0, 0, 0, 0, 0, 1, 2, 3, 4, 5, 5, 6, 6, 7, 8}).Draw(rt, "age")
 }
 
 // AgeDatabase advances the counters of the selected database (hook VerifAdvanceCounters): everything the
